@@ -234,91 +234,100 @@ theorem c12_lock_needed :
 section PollThread
 open C12Timer
 
-/-- **which poll outcome ends the thread — exactly** — a live poll thread issues the poll (one more request, carrying
-    the current hash) and is alive afterwards UNLESS the stub raised a `BaseException` that is not an `Exception`, or
-    the answer was an UPDATE it could convert while the task handler was already closed (`submit_task` refuses with
-    `IllegalStateException`, a `BaseException`): every other outcome — answer of any type, any payload, an
-    unconvertible payload, garbage instead of an answer, the stub raising any `Exception` — leaves it polling. -/
+/-- **which poll outcome ends the thread** — PREMISE (in the event itself): a `tick` is a pass whose loop test
+    `event.wait(self._time)` returned — `_time` / `wait` did not raise; with an unusable interval they do, outside the
+    `try`, and the thread ends of an `Exception` (`testFails`, witness `c12_interval_unusable_kills`).  Given that, a live
+    poll thread is alive after the pass UNLESS a `BaseException` that is not an `Exception` came out of the stub or out
+    of what `poll` evaluates before the send (`grpc.metadata()`, the request), or the answer was an UPDATE while the
+    task handler was already closed (`submit_task` refuses with `IllegalStateException`, a `BaseException`); every
+    other outcome — answer of any type and payload, an unconvertible payload, garbage, any `Exception` anywhere —
+    leaves it polling.  A request carrying the current hash reaches the stub exactly when nothing failed before the
+    send (`sendsRequest`): a failure of `grpc.metadata()` makes a pass without a request. -/
 theorem c12_tick_survives_iff (s : PT) (ha : s.alive = true) (hs : s.stopped = false) (out : StubOut)
     (tps : List RawTp) :
-    ((stepPT s (.tick out tps)).alive = true ↔ ¬ Kills s.th.isOpen out tps) ∧
-    (stepPT s (.tick out tps)).issued = s.issued + 1 ∧
-    (stepPT s (.tick out tps)).sent = s.sent ++ [requestHash s.svc] := by
+    ((stepPT s (.tick out tps)).alive = true ↔ ¬ Kills s.th.isOpen out) ∧
+    (stepPT s (.tick out tps)).issued = s.issued + (if out.sendsRequest then 1 else 0) ∧
+    (stepPT s (.tick out tps)).sent = s.sent ++ (if out.sendsRequest then [requestHash s.svc] else []) := by
   refine ⟨?_, (tick_live s ha hs out tps).1, (tick_live s ha hs out tps).2.1⟩
-  rw [tick_alive s ha hs out tps]
+  rw [tick_alive s ha hs out tps, convertResponse_eq]
   unfold Kills
-  generalize convertResponse tps = cfg
   cases ho : s.th.isOpen with
   | true =>
     rw [refusal_open _ ho]
     cases out with
+    | beforeSend e => cases e <;> simp [pollOnce, fact_catchesExc, fact_catchesBase]
     | raises e => cases e <;> simp [pollOnce, fact_catchesExc, fact_catchesBase]
     | garbage => simp [pollOnce, fact_catchesExc]
     | answer rt ts h =>
-      cases rt with
-      | noChange => simp [pollOnce]
-      | other => simp [pollOnce]
-      | update => cases cfg <;> simp [pollOnce, fact_catchesExc, updateNewConfigE, triggerUpdateE]
+      cases rt <;> simp [pollOnce, fact_catchesExc, updateNewConfigE, triggerUpdateE]
   | false =>
     rw [refusal_closed _ ho]
     cases out with
+    | beforeSend e => cases e <;> simp [pollOnce, fact_catchesExc, fact_catchesBase]
     | raises e => cases e <;> simp [pollOnce, fact_catchesExc, fact_catchesBase]
     | garbage => simp [pollOnce, fact_catchesExc]
     | answer rt ts h =>
-      cases rt with
-      | noChange => simp [pollOnce]
-      | other => simp [pollOnce]
-      | update => cases cfg <;> simp [pollOnce, fact_catchesExc, fact_catchesBase, updateNewConfigE, triggerUpdateE]
+      cases rt <;> simp [pollOnce, fact_catchesExc, fact_catchesBase, updateNewConfigE, triggerUpdateE]
 
-/-- **polling continues, and the next poll is issued** — for every sequence of poll outcomes in which the stub never
-    raises a non-`Exception` `BaseException` (answers of any type, malformed or unconvertible payloads, garbage, any
-    `Exception`), while the task handler accepts work: the thread is alive after all of them, it issued exactly one
-    request per pass, and nothing ended it. -/
-theorem c12_timer_issues_every_poll (ticks : List (StubOut × List RawTp))
-    (hb : ∀ t ∈ ticks, t.1 ≠ .raises .base) :
+/-- no non-`Exception` `BaseException` comes out of the stub or of what is evaluated before the send -/
+def NoBase (ticks : List (StubOut × List RawTp)) : Prop :=
+  ∀ t ∈ ticks, t.1 ≠ .raises .base ∧ t.1 ≠ .beforeSend .base
+
+private theorem ticks_key (ticks : List (StubOut × List RawTp)) : ∀ (s : PT), NoBase ticks →
+    s.alive = true → s.stopped = false → s.th.isOpen = true →
+    (runPTFrom s (ticks.map fun t => .tick t.1 t.2)).alive = true ∧
+    (runPTFrom s (ticks.map fun t => .tick t.1 t.2)).issued =
+      s.issued + (ticks.filter (·.1.sendsRequest)).length ∧
+    (runPTFrom s (ticks.map fun t => .tick t.1 t.2)).sent.length =
+      s.sent.length + (ticks.filter (·.1.sendsRequest)).length ∧
+    (runPTFrom s (ticks.map fun t => .tick t.1 t.2)).died = s.died ∧
+    (runPTFrom s (ticks.map fun t => .tick t.1 t.2)).th = s.th ∧
+    (runPTFrom s (ticks.map fun t => .tick t.1 t.2)).stopped = false := by
+  induction ticks with
+  | nil => intro s _ ha hs _; exact ⟨ha, by simp [runPTFrom], by simp [runPTFrom], rfl, rfl, hs⟩
+  | cons t rest ih =>
+    intro s hb ha hs ho
+    have hl := tick_live s ha hs t.1 t.2
+    have hnk : ¬ Kills s.th.isOpen t.1 := by
+      rintro (h | h | ⟨h, _⟩)
+      · exact (hb t (List.mem_cons_self ..)).1 h
+      · exact (hb t (List.mem_cons_self ..)).2 h
+      · rw [ho] at h; cases h
+    have hal := (c12_tick_survives_iff s ha hs t.1 t.2).1.2 hnk
+    have hd : (stepPT s (.tick t.1 t.2)).died = s.died := by
+      rw [tick_died s ha hs]
+      have hal' := hal
+      rw [tick_alive s ha hs] at hal'
+      cases hr : (pollOnce s.svc (refusal s.th) t.1 (convertResponse t.2)).2 with
+      | none => rfl
+      | some e => rw [hr] at hal'; simp only at hal' ⊢; simp [hal']
+    have := ih (stepPT s (.tick t.1 t.2)) (fun u hu => hb u (List.mem_cons_of_mem _ hu)) hal hl.2.2.1
+      (by rw [hl.2.2.2.1]; exact ho)
+    simp only [List.map_cons, runPTFrom, List.foldl_cons]
+    simp only [runPTFrom] at this
+    refine ⟨this.1, ?_, ?_, ?_, ?_, this.2.2.2.2.2⟩
+    · rw [this.2.1, hl.1]; cases hq : t.1.sendsRequest <;> simp [List.filter_cons, hq]; omega
+    · rw [this.2.2.1, hl.2.1]; cases hq : t.1.sendsRequest <;> simp [List.filter_cons, hq]; omega
+    · rw [this.2.2.2.1, hd]
+    · rw [this.2.2.2.2.1, hl.2.2.2.1]
+
+/-- **polling continues, and the next poll is issued** — for every sequence of passes (each a `tick`: the loop test
+    returned, so the interval is usable by construction of the event) in which no non-`Exception` `BaseException` is
+    thrown into the poll (`NoBase`), while the task handler accepts work: the thread is alive after all of them, nothing
+    ended it, and it made exactly one request per pass in which nothing failed before the send.  (The inline first poll
+    of `LongPoll.start`, made on the caller's thread before the thread exists, is not part of this machine.) -/
+theorem c12_timer_issues_every_poll (ticks : List (StubOut × List RawTp)) (hb : NoBase ticks) :
     (runPT (ticks.map fun t => .tick t.1 t.2)).alive = true ∧
-    (runPT (ticks.map fun t => .tick t.1 t.2)).issued = ticks.length ∧
-    (runPT (ticks.map fun t => .tick t.1 t.2)).sent.length = ticks.length ∧
+    (runPT (ticks.map fun t => .tick t.1 t.2)).issued = (ticks.filter (·.1.sendsRequest)).length ∧
+    (runPT (ticks.map fun t => .tick t.1 t.2)).sent.length = (ticks.filter (·.1.sendsRequest)).length ∧
     (runPT (ticks.map fun t => .tick t.1 t.2)).died = none := by
-  have key : ∀ (ticks : List (StubOut × List RawTp)) (s : PT), (∀ t ∈ ticks, t.1 ≠ .raises .base) →
-      s.alive = true → s.stopped = false → s.th.isOpen = true →
-      (runPTFrom s (ticks.map fun t => .tick t.1 t.2)).alive = true ∧
-      (runPTFrom s (ticks.map fun t => .tick t.1 t.2)).issued = s.issued + ticks.length ∧
-      (runPTFrom s (ticks.map fun t => .tick t.1 t.2)).sent.length = s.sent.length + ticks.length ∧
-      (runPTFrom s (ticks.map fun t => .tick t.1 t.2)).died = s.died := by
-    intro ticks
-    induction ticks with
-    | nil => intro s _ ha _ _; exact ⟨ha, rfl, rfl, rfl⟩
-    | cons t rest ih =>
-      intro s hb ha hs ho
-      have hl := tick_live s ha hs t.1 t.2
-      have hnk : ¬ Kills s.th.isOpen t.1 t.2 := by
-        rintro (h | ⟨h, _⟩)
-        · exact hb t (List.mem_cons_self ..) h
-        · rw [ho] at h; cases h
-      have hal := (c12_tick_survives_iff s ha hs t.1 t.2).1.2 hnk
-      have hd : (stepPT s (.tick t.1 t.2)).died = s.died := by
-        rw [tick_died s ha hs]
-        have hal' := hal
-        rw [tick_alive s ha hs] at hal'
-        cases hr : (pollOnce s.svc (refusal s.th) t.1 (convertResponse t.2)).2 with
-        | none => rfl
-        | some e => rw [hr] at hal'; simp only at hal' ⊢; simp [hal']
-      have := ih (stepPT s (.tick t.1 t.2)) (fun u hu => hb u (List.mem_cons_of_mem _ hu)) hal hl.2.2.1
-        (by rw [hl.2.2.2.1]; exact ho)
-      simp only [List.map_cons, runPTFrom, List.foldl_cons, List.length_cons]
-      simp only [runPTFrom] at this
-      refine ⟨this.1, ?_, ?_, ?_⟩
-      · rw [this.2.1, hl.1]; omega
-      · rw [this.2.2.1, hl.2.1]; simp; omega
-      · rw [this.2.2.2, hd]
-  have := key ticks PT.init hb rfl rfl rfl
-  simpa [runPT, PT.init] using this
+  have := ticks_key ticks PT.init hb rfl rfl rfl
+  exact ⟨this.1, by simpa [runPT, PT.init] using this.2.1, by simpa [runPT, PT.init] using this.2.2.1,
+    by simpa [runPT, PT.init] using this.2.2.2.1⟩
 
-/-- the hand-written poll of the configuration machine IS the translated one: while the task handler accepts work, a
-    tick of the poll thread changes the configuration service exactly as `ConfigSvc.step` does for the op it stands
-    for (so `c12_converges`, `c12_hash`, `c12_error_keeps` speak about what the thread really does), and the thread
-    survives exactly when that machine's timer does. -/
+/-- one step: the hand-written poll of the configuration machine IS the translated one: while the task handler accepts
+    work, a tick of the poll thread changes the configuration service exactly as `ConfigSvc.step` does for the op it
+    stands for, and the thread survives exactly when that machine's timer does. -/
 theorem c12_poll_thread_refines (locked : Bool) (s : PT) (c : St) (ha : s.alive = true) (hs : s.stopped = false)
     (ho : s.th.isOpen = true) (hsvc : c.svc = s.svc) (hal : c.timerAlive = true) (out : StubOut)
     (tps : List RawTp) :
@@ -326,6 +335,9 @@ theorem c12_poll_thread_refines (locked : Bool) (s : PT) (c : St) (ha : s.alive 
     (ConfigSvc.step locked c (Ev.toOp out tps)).timerAlive = (stepPT s (.tick out tps)).alive := by
   rw [(tick_live s ha hs out tps).2.2.2.2, tick_alive s ha hs out tps, refusal_open _ ho, ← hsvc]
   cases out with
+  | beforeSend e =>
+    cases e <;> simp [Ev.toOp, ConfigSvc.step, ConfigSvc.pollFail, pollOnce, hal, timerCatches, fact_catchesExc,
+      fact_catchesBase, timerCatchesException, timerCatchesBase]
   | raises e =>
     cases e <;> simp [Ev.toOp, ConfigSvc.step, ConfigSvc.pollFail, pollOnce, hal, timerCatches, fact_catchesExc,
       fact_catchesBase, timerCatchesException, timerCatchesBase]
@@ -343,8 +355,53 @@ theorem c12_poll_thread_refines (locked : Bool) (s : PT) (c : St) (ha : s.alive 
         simp [ConfigSvc.pollFail, pollOnce, hal, timerCatches, fact_catchesExc, timerCatchesException]
       | some cfg => simp [pollDispatch, pollOnce, hal, updateNewConfigE, triggerUpdateE, updateNewConfig_split]
 
-/-- **shutdown stops the polling** — after `LongPoll.shutdown()` no further poll is issued and the stored
-    configuration is never touched again, whatever comes. -/
+/-- **iterated: the thread simulates the configuration machine** — for every sequence of passes without a
+    non-`Exception` `BaseException`, with the handler open, the poll thread leaves the configuration service in exactly
+    the state `ConfigSvc.run` reaches on the ops the passes stand for, and both timers are alive.  Hence the hash its
+    NEXT request carries and the configuration it holds are the reference's (`c12_hash` applied to that run): the
+    convergence theorems speak about what the thread does — proved, not said.  (Apply tasks placed between the polls
+    touch `queued` / the handler only; the fields the polls read and write — hash, polled configuration — are the
+    same with and without them: `c12_hash` holds for every op list.) -/
+theorem c12_poll_thread_simulates (ticks : List (StubOut × List RawTp)) (hb : NoBase ticks) :
+    (runPT (ticks.map fun t => .tick t.1 t.2)).svc = (ConfigSvc.run (ticks.map fun t => Ev.toOp t.1 t.2)).svc ∧
+    (ConfigSvc.run (ticks.map fun t => Ev.toOp t.1 t.2)).timerAlive = true ∧
+    requestHash (runPT (ticks.map fun t => .tick t.1 t.2)).svc =
+      (refRun (ticks.map fun t => Ev.toOp t.1 t.2)).hash ∧
+    (runPT (ticks.map fun t => .tick t.1 t.2)).svc.polled = (refRun (ticks.map fun t => Ev.toOp t.1 t.2)).config := by
+  have key : ∀ (ticks : List (StubOut × List RawTp)) (s : PT) (c : St), NoBase ticks →
+      s.alive = true → s.stopped = false → s.th.isOpen = true → c.svc = s.svc → c.timerAlive = true →
+      (runPTFrom s (ticks.map fun t => .tick t.1 t.2)).svc =
+        (ConfigSvc.runFrom applyLocked c (ticks.map fun t => Ev.toOp t.1 t.2)).svc ∧
+      (ConfigSvc.runFrom applyLocked c (ticks.map fun t => Ev.toOp t.1 t.2)).timerAlive = true := by
+    intro ticks
+    induction ticks with
+    | nil => intro s c _ _ _ _ hsvc hal; exact ⟨hsvc.symm, hal⟩
+    | cons t rest ih =>
+      intro s c hb ha hs ho hsvc hal
+      have r := c12_poll_thread_refines applyLocked s c ha hs ho hsvc hal t.1 t.2
+      have hnk : ¬ Kills s.th.isOpen t.1 := by
+        rintro (h | h | ⟨h, _⟩)
+        · exact (hb t (List.mem_cons_self ..)).1 h
+        · exact (hb t (List.mem_cons_self ..)).2 h
+        · rw [ho] at h; cases h
+      have hal' := (c12_tick_survives_iff s ha hs t.1 t.2).1.2 hnk
+      have hl := tick_live s ha hs t.1 t.2
+      simp only [List.map_cons, runPTFrom, ConfigSvc.runFrom, List.foldl_cons]
+      exact ih _ _ (fun u hu => hb u (List.mem_cons_of_mem _ hu)) hal' hl.2.2.1 (by rw [hl.2.2.2.1]; exact ho)
+        r.1 (by rw [r.2]; exact hal')
+  have k := key ticks PT.init St.init hb rfl rfl rfl rfl rfl
+  have e : runPT (ticks.map fun t => .tick t.1 t.2) = runPTFrom PT.init (ticks.map fun t => .tick t.1 t.2) := rfl
+  have e2 : ConfigSvc.run (ticks.map fun t => Ev.toOp t.1 t.2) =
+      ConfigSvc.runFrom applyLocked St.init (ticks.map fun t => Ev.toOp t.1 t.2) := rfl
+  have hh := c12_hash (ticks.map fun t => Ev.toOp t.1 t.2)
+  refine ⟨by rw [e, e2]; exact k.1, by rw [e2]; exact k.2, ?_, ?_⟩
+  · rw [e, k.1, ← e2]; exact hh.1
+  · rw [e, k.1, ← e2]; exact hh.2.1
+
+/-- **shutdown stops the polling** — after `LongPoll.shutdown()` has RETURNED (`stop()` sets the event and joins: a poll
+    in flight finishes during the join — the join has no timeout, a hanging long poll hangs shutdown) no further poll is
+    issued and the stored configuration is never touched again, whatever comes.  (The first conjunct is the definition
+    of the `stop` event; the content is in the other two.) -/
 theorem c12_stop_ends_polling (evs evs' : List Ev) :
     (runPT (evs ++ .stop :: evs')).alive = false ∧ (runPT (evs ++ .stop :: evs')).issued = (runPT evs).issued ∧
     (runPT (evs ++ .stop :: evs')).svc.hash = (runPT evs).svc.hash := by
@@ -355,20 +412,24 @@ theorem c12_stop_ends_polling (evs evs' : List Ev) :
   rw [step_stop] at h
   exact ⟨h.1, h.2.1, h.2.2.2.1⟩
 
-/-- the only thing that ever ends the thread by an exception is a `BaseException` that is not an `Exception` -/
-theorem c12_timer_dies_only_of_base (evs : List Ev) (e : Py.Exn) (h : (runPT evs).died = some e) : e = .base := by
-  have key : ∀ (evs : List Ev) (s : PT), (∀ e, s.died = some e → e = .base) →
+/-- with a usable interval (`IntervalUsable`: the loop test never raises — named hypothesis, needed: see
+    `c12_interval_unusable_kills`), the only exception that ever ends the thread is a `BaseException` that is not an
+    `Exception`, leaving the timer's function (`LongPoll.poll`). -/
+theorem c12_timer_dies_only_of_base (evs : List Ev) (hu : IntervalUsable evs) (e : Py.Exn)
+    (h : (runPT evs).died = some e) : e = .base := by
+  have key : ∀ (evs : List Ev) (s : PT), Ev.testFails ∉ evs → (∀ e, s.died = some e → e = .base) →
       ∀ e, (runPTFrom s evs).died = some e → e = .base := by
     intro evs
     induction evs with
-    | nil => intro s hs; exact hs
+    | nil => intro s _ hs; exact hs
     | cons ev rest ih =>
-      intro s hs
+      intro s hu hs
       simp only [runPTFrom, List.foldl_cons]
-      apply ih
+      apply ih _ (fun hm => hu (List.mem_cons_of_mem _ hm))
       cases ev with
       | stop => rw [step_stop]; exact hs
       | flush => exact hs
+      | testFails => exact absurd (List.mem_cons_self ..) hu
       | tick out tps =>
         by_cases hrun : s.alive = true ∧ s.stopped = false
         · intro e he
@@ -388,7 +449,15 @@ theorem c12_timer_dies_only_of_base (evs : List Ev) (e : Py.Exn) (h : (runPT evs
         · rw [tick_idle s (by
             cases ha : s.alive <;> cases hst : s.stopped <;> simp_all)]
           exact hs
-  exact key evs PT.init (by simp [PT.init]) e h
+  exact key evs PT.init hu (by simp [PT.init]) e h
+
+/-- witness that `IntervalUsable` is needed (POLL_TIMER = 0: `_time` raises ZeroDivisionError; 'inf': `Event.wait`
+    raises OverflowError — both `Exception`s, both in the loop test, outside the `try`): the thread ends of an
+    `Exception` before its first pass, no request is ever made, later passes do not exist. -/
+theorem c12_interval_unusable_kills :
+    let t : RawTp := ⟨⟨"a.py", 1, "s1"⟩, true, true⟩
+    let s := runPT [.testFails, .tick (.answer .update 1 "h1") [t]]
+    s.alive = false ∧ s.died = some .exc ∧ s.issued = 0 ∧ s.svc.hash = none := by decide
 
 /-- the guard skeleton of `_target` itself (regenerated): with `_time` and `event.wait` taken as not raising (trusted:
     the interval is coerced and not zero), no placement of `Exception`-class faults, in any number of passes, makes
